@@ -121,6 +121,8 @@ def check(ctx):
     _destructive_kernels(ctx, rep, model)
     _attribute_definedness(rep, model, ops)
     _block_call(rep, model)
+    from . import c03b
+    c03b.run(rep, model)
     return rep
 
 
